@@ -12,17 +12,17 @@ def openMachine (args : List String) (hin hout : IO.FS.Stream) : Option (IO Bool
 /-- `call regiondec <origin> <size> <dw> <addrWidth> <a>` -> 0|1 ;
     `call rrnext <policy 0=withdraw|1=ce> <n> <grant> <ce> <req bits as number>` -> next grant. -/
 def call (args : List String) : Option String :=
-  match args.mapM (·.toNat?) , args with
-  | _, "regiondec" :: rest =>
+  match args with
+  | "regiondec" :: rest =>
     match rest.mapM (·.toNat?) with
     | some [o, sz, dw, aw, a] => some (toString (b2n (regionDec o sz dw aw a)))
     | _ => none
-  | _, "rrnext" :: rest =>
+  | "rrnext" :: rest =>
     match rest.mapM (·.toNat?) with
     | some [p, n, g, ce, r] =>
       let pol := if p == 0 then RoundRobin.Policy.withdraw else RoundRobin.Policy.ce
       some (toString (RoundRobin.next pol n g (fun i => r.testBit i) (n2b ce)))
     | _ => none
-  | _, _ => none
+  | _ => none
 
 def main : IO Unit := mainLoop openMachine call
